@@ -259,3 +259,42 @@ def against_const(e, const):
     if e.left.has_const() and e.left.const == const:
         return _FLIP.get(e.op, e.op), e.right
     return None
+
+
+def no_truncation(chk, rule, qual, build, construct, atoms=(R, DT), self_cls=None, what="integer-typed input"):
+    """Run an entry with integer-typed data: no real value may be stored into an integer buffer (NumPy truncates silently).
+    One obligation per truncating buffer (identified by its allocation statement), or one discharged obligation."""
+    r = analyse(chk, qual, build, atoms=atoms, self_cls=self_cls)
+    ev = [e for e in r.I.events if e.kind == "dtype-truncation"]
+    sites = {}
+    for e in ev:
+        tok = sorted(t for t in e.target.origin if t.startswith("a@"))
+        key = tok[0] if tok else (e.fn + ":" + (e.stmt or ""))
+        sites.setdefault(key, []).append(e)
+    for key, es in sorted(sites.items()):
+        alloc = _alloc_stmt(chk.P, key)
+        e = es[0]
+        chk.ob(rule, "%s{buffer %s}" % (construct, alloc or key), "for %s no real value is stored into an integer buffer" % what, False,
+               derived="%d store(s) of real values into an integer array, e.g. `%s`" % (len({x.stmt for x in es}), e.stmt), loc=e.loc, stmt=e.stmt,
+               detail="NumPy truncates the stored values toward zero")
+    if not sites:
+        chk.ob(rule, construct, "for %s no real value is stored into an integer buffer" % what, True,
+               derived="no truncating store on any path", nontrivial=any(e.kind == "mutation" for e in r.I.events))
+    return r
+
+
+def _alloc_stmt(P, tok):
+    """source statement of an allocation-site token a@<qualname>:<line>:<col>"""
+    import ast as _ast
+    try:
+        body = tok[2:]
+        qual, line, col = body.rsplit(":", 2)
+        fi = P.functions.get(qual)
+        if fi is None:
+            return None
+        for n in _ast.walk(fi.node):
+            if isinstance(n, _ast.stmt) and getattr(n, "lineno", None) == int(line) and not isinstance(n, (_ast.If, _ast.For, _ast.While, _ast.FunctionDef)):
+                return " ".join(_ast.unparse(n).split())[:120]
+    except Exception:
+        return None
+    return None
